@@ -2431,6 +2431,13 @@ func (s *scanner) processScannedFiles(entryPointMeta []graph.EntryPoint) []scann
 			continue
 		}
 
+		// JavaScript stubs for CSS files are created by this loop itself. In an
+		// incremental build the stub's source index comes from the cache and may
+		// lie inside the range being iterated; skip it like a fresh build does.
+		if repr, ok := result.file.inputFile.Repr.(*graph.JSRepr); ok && repr.CSSSourceIndex.IsValid() {
+			continue
+		}
+
 		sb := strings.Builder{}
 		isFirstImport := true
 
